@@ -1,11 +1,11 @@
 SPECIFICATION GSpec
 CONSTANTS Callers = {c1, c2, c3}
- MaxTick = 8
- MaxRot = 0
+ MaxTick = 6
+ MaxRot = 1
  MaxAtt = 2
  FreshKey = FALSE
- MaxJunk = 0
- MaxClose = 0
- Kinds = {"obj"}
- Dev = {"GenIdOutsideLock"}
+ MaxJunk = 1
+ MaxClose = 2
+ Kinds = {"obj", "vec"}
+ Dev = {}
 CHECK_DEADLOCK FALSE
